@@ -428,3 +428,27 @@ package syntax
 //@ lemma mrostr_oct property C08 C09 C16 uses mrostr utf8 : forall a arr, o int, n int, j int :: 0 <= j && j + 4 <= n && mrostr_runk(a, o, n, j) == 1 && a[o+j] == 92 && mrostr_oct(a[o+j+1]) >= 0 && mrostr_oct(a[o+j+2]) >= 0 && mrostr_oct(a[o+j+3]) >= 0 ==> mrostr_runk(a, o, n, j+4) == 1 && mrostr_runk(a, o, n, j+3) == 20 && mrostr_runa(a, o, n, j+3) == 8 * mrostr_oct(a[o+j+1]) + mrostr_oct(a[o+j+2]) && mrostr_olen(a, o, n, j+3) == mrostr_olen(a, o, n, j)
 //@ lemma mrostr_cpend property C08 C09 C16 uses mrostr utf8 : forall a arr, o int, n int, p int :: 0 <= p && p < n && (mrostr_runk(a, o, n, p) == 10 || mrostr_runk(a, o, n, p) == 18) && mrostr_hex(a[o+p]) >= 0 ==> mrostr_runk(a, o, n, p+1) == 1 && mrostr_olen(a, o, n, p+1) == mrostr_olen(a, o, n, p) + mrostr_cplen(mrostr_cp(mrostr_runa(a, o, n, p), a[o+p])) && (forall x int :: mrostr_olen(a, o, n, p) <= x && x < mrostr_olen(a, o, n, p) + mrostr_cplen(mrostr_cp(mrostr_runa(a, o, n, p), a[o+p])) ==> mrostr_dec(a, o, n, x) == mrostr_cpbyte(mrostr_cp(mrostr_runa(a, o, n, p), a[o+p]), x - mrostr_olen(a, o, n, p)))
 //@ lemma mrostr_mb property C08 C09 C16 uses mrostr utf8 : forall a arr, o int, n int, j int, w int :: 0 <= j && 1 <= w && w <= 4 && j + w <= n && mrostr_runk(a, o, n, j) == 1 && (forall t int :: 0 <= t && t < w ==> mrostr_plain(a[o+j+t])) ==> mrostr_runk(a, o, n, j+w) == 1 && mrostr_olen(a, o, n, j+w) == mrostr_olen(a, o, n, j) + w && (forall x int :: mrostr_olen(a, o, n, j) <= x && x < mrostr_olen(a, o, n, j) + w ==> mrostr_dec(a, o, n, x) == a[o + j + (x - mrostr_olen(a, o, n, j))])
+
+// ---------------------------------------------------------------- C01 narrowing of array literals to an array-of-struct type
+// Exp.filter: what narrowing e to type t yields (deterministic abstraction; the result may be e itself).
+//@ iface syntax.Exp.filter property C01
+//@   pure
+//@   opt deterministic on
+
+//@ func syntax.baseType property C01
+//@   trusted
+//@   pure
+//@   opt deterministic on
+
+// ArrayExp.filter (one-dimensional arrays of structs): the literal itself is returned only
+// if narrowing leaves EVERY element unchanged; otherwise the result is a new array whose
+// k-th element is the narrowed k-th element.
+//@ func syntax.ArrayExp.filter property C01
+//@   requires s != nil ==> forall k :: 0 <= k && k < len(s.Value) ==> !isnil(s.Value[k])
+//@   let AT = as(t0, ptr_syntax.ArrayType)
+//@   ensures @same s != nil && istype(fn(syntax.baseType, t0), ptr_syntax.StructType) && istype(t0, ptr_syntax.ArrayType) && AT.Dim == 1 && istype(result.0, ptr_syntax.ArrayExp) && as(result.0, ptr_syntax.ArrayExp) == s ==> forall k :: 0 <= k && k < len(s.Value) ==> fn(syntax.Exp.filter, s.Value[k], AT.Elem, lookup).0 == s.Value[k]
+//@   ensures @filtered s != nil && istype(fn(syntax.baseType, t0), ptr_syntax.StructType) && istype(t0, ptr_syntax.ArrayType) && AT.Dim == 1 && istype(result.0, ptr_syntax.ArrayExp) && as(result.0, ptr_syntax.ArrayExp) != s ==> len(as(result.0, ptr_syntax.ArrayExp).Value) == len(s.Value) && forall k :: 0 <= k && k < len(s.Value) ==> as(result.0, ptr_syntax.ArrayExp).Value[k] == fn(syntax.Exp.filter, s.Value[k], AT.Elem, lookup).0
+//@   loop 1 invariant 0 <= iter && iter <= len(s.Value) && len(result.Value) == len(s.Value) && result != s
+//@   loop 1 invariant forall k :: 0 <= k && k < iter ==> result.Value[k] == fn(syntax.Exp.filter, s.Value[k], t, lookup).0
+//@   loop 1 invariant anyChange <==> (exists k :: 0 <= k && k < iter && fn(syntax.Exp.filter, s.Value[k], t, lookup).0 != s.Value[k])
+//@   loop 1 invariant forall k :: 0 <= k && k < len(s.Value) ==> s.Value[k] == old(s.Value[k])
